@@ -2,7 +2,7 @@
 # test_seed.sh <seed-id> <PROP> [<PROP>...] : run checks against a scratch worktree with the seeded patch applied
 ID=$1; shift
 WT=/tmp/seedtest
-cd $WT && git checkout -q -- . && git apply /verif/seeded/$ID/patch.diff || { echo "patch failed"; exit 3; }
+cd $WT && git checkout -q -- . && git checkout -q --detach main && { git apply /verif/seeded/$ID/patch.diff 2>/dev/null || git apply --3way /verif/seeded/$ID/patch.diff 2>/dev/null; } || { echo "$ID: patch failed"; git checkout -q -- .; exit 3; }
 cd /verif
 for P in "$@"; do
   VERIF_REPO=$WT VERIF_CACHE=/tmp/seedcache VERIF_EVIDENCE=/tmp/seedev VERIF_REPLAY=/tmp/seedreplay ./check $P --tier ${TIER:-quick} > /tmp/seedtest_${ID}_$P.log 2>&1
